@@ -56,6 +56,30 @@ fn gen_file(rng: &mut Rng, max_elems: usize) -> String {
     file_text(&mods, rng)
 }
 
+/// lookup by name in every named list of the module
+pub fn index_check(m: &a2lfile::Module) -> Option<String> {
+    use a2lfile::A2lObjectName;
+    macro_rules! chk {
+        ($($f:ident),*) => {
+            $(
+                for (i, e) in m.$f.iter().enumerate() {
+                    let name = e.get_name().to_string();
+                    match m.$f.get(&name) {
+                        Some(x) if x.get_name() == name => {}
+                        Some(x) => return Some(format!("{}: lookup of {name} (position {i}) yields {}", stringify!($f), x.get_name())),
+                        None => return Some(format!("{}: {name} (position {i}) is not found by name", stringify!($f))),
+                    }
+                    if m.$f.index(&name) != Some(i) && m.$f.iter().filter(|y| y.get_name() == name).count() == 1 {
+                        return Some(format!("{}: index of {name} is {:?}, it stands at {i}", stringify!($f), m.$f.index(&name)));
+                    }
+                }
+            )*
+        };
+    }
+    chk!(axis_pts, blob, characteristic, compu_method, compu_tab, compu_vtab, compu_vtab_range, frame, function, group, instance, measurement, record_layout, transformer, typedef_axis, typedef_blob, typedef_characteristic, typedef_measurement, typedef_structure, unit);
+    None
+}
+
 pub fn run_c14(args: &Args) -> Report {
     let mut rep = Report::new(
         "C14",
@@ -98,6 +122,10 @@ pub fn run_c14(args: &Args) -> Report {
             // (1) pure reordering: same elements, unchanged content
             if module_content(m) != contents[mi] {
                 fail(&mut rep, "content", format!("module {mname}: element content changed by sort()"));
+            }
+            // (1b) the lists can still be searched by name: every name finds the element that carries it
+            if let Some(d) = index_check(m) {
+                fail(&mut rep, "index", format!("module {mname}: {d}"));
             }
             // (2) written order is the documented canonical order
             let want = canonical(&snaps[mi]);
